@@ -22,6 +22,8 @@ META = {
 }
 
 FINDINGS = {
+    "C18-hands-out-closed-instance": "SummonSwamp's deferred exit does not re-check the instance: one that its idle listener closed while the summoner "
+                                     "was leaving the wait slot is handed out, and what the caller writes into it is acknowledged and never flushed",
     "C18-stale-callback-unmaps-live-instance": "the close callback is swamps.Delete(name): a second callback of an already closed instance "
                                                "(Destroy() on a stale handle after Close()) removes the map entry of the live successor; the "
                                                "next summoner constructs another instance next to it",
@@ -77,6 +79,8 @@ def spec_violated(rep):
                 return "after `%s` %s instances of the swamp are alive at once (%s)" % (op, kv["live"], line)
         except ValueError:
             pass
+        if "handed-closed" in line:
+            return "`%s`: SummonSwamp handed out an instance that is closing (what the caller writes into it is never flushed) (%s)" % (op, line)
         for bad in ("unexpected-", "-timeout"):
             if bad in line:
                 return "`%s` → `%s`" % (op, line)
@@ -89,7 +93,8 @@ def run(ctx):
     corrs = []
     if K.build_hx(ctx) and K.build_drv(ctx):
         rc = "yes" if (facts.get("everyEntrantCounts") == "yes" and facts.get("decDeleteAtomic") == "yes") else "no"
-        args = ["refCounted=" + rc, "callbackCompares=" + facts.get("callbackCompares", "unknown")]
+        args = ["refCounted=" + rc, "callbackCompares=" + facts.get("callbackCompares", "unknown"),
+                "exitRechecksClosing=" + facts.get("exitRechecksClosing", "unknown")]
         c = P.correspondence_observed(ctx, "C18", args, annotate)
         corrs.append(("C18", args, c))
         # genuinely concurrent summoners, closers and stale handles; the hook log must be a trace of the model
